@@ -85,11 +85,11 @@ CHECKS['C04'] = (
 CHECKS['C05'] = (
     'complete product over single-fibre configurations, every order of span lists on designed paths, deviation-bounded '
     'enumeration of Raman solver settings; oracles computed from the input documents',
-    '(a) all 1920 combinations of length, loss (scalar / per-frequency table in ascending, descending, 2-point form), lumped '
+    '(a) all 2400 combinations of length, loss (scalar / per-frequency table in ascending, descending, 2-point form), lumped '
     'losses, pad, connectors and comb: attenuation == loss budget (1e-9 dB), CD = D L, latency = L n/c, PMD = coef sqrt(L). '
     '(b) 10 span-set x amplifier-sequence combinations, every permutation of the span list, designed and propagated: totals == '
     'sums (CD, latency) / root-sum-squares (PMD, PDL incl. amplifiers and ROADMs) from the documents and identical over orders. '
-    '(c) Raman solver settings within 2 (quick) / 4 (thorough) deviations: low-power limit == loss budget, perturbative vs '
+    '(c) Raman solver settings within 3 deviations (quick) / the full product (thorough): low-power limit == loss budget, perturbative vs '
     'numerical within the explicit-Euler bias bound, lumped losses once, counter-propagating pumps only add gain.',
     'Solver step <= 2 km (coarser steps make the numerical method itself inaccurate); tolerances for Raman comparisons are the '
     'analytic discretisation bounds stated in the check source.',
@@ -111,11 +111,11 @@ CHECKS['C02'] = (
 CHECKS['C07'] = (
     'complete enumeration of carrier-order permutations over a validity alphabet of carrier lists, and of band-edge spectra '
     'x carrier orders over every simple path of single-, two-, three-band and mixed networks, against an independent band model',
-    'Part 1: 131 carrier lists (every typing of 3 touching channels from 4 channel types, every one-step overlap, baud>slot '
+    'Part 1: 648 (thorough: + 5-channel typings) carrier lists (every typing of 3 and 4 touching channels from 4 channel types, every one-step overlap, baud>slot '
     'variants, 5-channel lists, equal frequencies) x all permutations x both constructors: invalid lists raise SpectrumError in '
     'every order, valid lists build the identical spectrum in every order. Part 2: 7 designed networks (C auto-designed, C+L, '
     'C+L+S, C then C+L, narrow-C preamp, C+L+S then C+L, SI wider than the amplifiers) x every simple path x spectra with '
-    'channels exactly on / inside / across / outside each edge of the path\'s common bands x 4 carrier orders: the set after the '
+    'channels exactly on / inside / across / outside each edge of the path\'s common bands x reversed / interleaved / rotated / transposed carrier orders: the set after the '
     'filter equals the independent band model, the launched identity tuples are found unchanged at every recorded snapshot and '
     'at the receiver, results are equal for all orders.',
     'Bands are read from the built amplifier elements; the three-band amplifier is a synthetic library entry (S band); networks '
@@ -238,10 +238,10 @@ CHECKS['C16'] = (
 CHECKS['C19'] = (
     'exhaustive enumeration of ordered batches of outcome kinds through planning() -> results_to_json -> jsontocsv, independent '
     'response model built from the returned requests and propagated paths',
-    'Every single outcome, every ordered pair and a twelfth (thorough: all) of the ordered triples of 12 outcome kinds (served, '
+    'Every single outcome, every ordered pair and triple (thorough: quadruple) of the outcome kinds (served, '
     'served bidirectional, served with an N/M list, aggregated pair, aggregated triple, NO_PATH_WITH_CONSTRAINT, '
     'NO_FEASIBLE_BAUDRATE_WITH_SPACING, NO_FEASIBLE_MODE, MODE_NOT_FEASIBLE forward / reverse-only, NO_SPECTRUM, '
-    'NOT_ENOUGH_RESERVED_SPECTRUM) on an asymmetric line system with a 2 dB system margin and penalty tables: one response per '
+    'NOT_ENOUGH_RESERVED_SPECTRUM) on an asymmetric network with a 2 dB system margin and penalty tables: one response per '
     '(joined) id with summed bandwidth, hop list == computed path, transponder type/mode, N/M labels == assignment, every metric '
     '== the receiver attribute of the right direction rounded to 2 decimals, blocked requests carry the reason and no labels, '
     'bidirectional ones a z-a block from the reverse receiver; the CSV parsed back states the same values, threshold column == mode '
@@ -266,10 +266,10 @@ CHECKS['C18'] = (
 CHECKS['C20'] = (
     'exhaustive enumeration of combinations of workbook mutators and of service-row subsets, every workbook really written as '
     '.xlsx and also fed through an in-memory xlrd-API object, reference model of docs/excel.rst on the produced JSON graph',
-    'All combinations of <= 2 (quick) / 3 (thorough) of 20 workbook mutators (two-sided / partially two-sided link columns, zero '
+    'All combinations of <= 3 (quick) / 4 (thorough) of 21 workbook mutators (two-sided / partially two-sided link columns, zero '
     'cells, float lengths, blank / unknown site type, ILA of degree 1 / 3, FUSED of degree 3, reversed link order, Eqpt rows on '
     'ROADM / ILA sites one- and two-sided and towards either neighbour, fused booster, Roadms rows, restrictions, coordinates), 10 '
-    'error workbooks in 2 contexts, service sheets with every 1-2 (and part / all of the 3-) row subsets of 10 row kinds plus 5 '
+    'error workbooks in 2 contexts, service sheets with every 1-3 (and part / all of the 4-) row subsets of 12 row kinds plus 5 '
     'invalid rows on two base workbooks: sites, fibres (values, west defaulting to east), wiring, one-in/one-out, Eqpt settings on '
     'the amplifier facing the named neighbour (checked through the graph), per-degree targets and restrictions match the sheet; '
     'error workbooks raise NetworkTopologyError; the JSON loads and auto-designs; service rows become requests with converted '
@@ -306,6 +306,26 @@ ADDENDA = {
     'C20': 'Includes two rows disjoint from the same request, west cells equal to 0 next to non-zero east cells and a loose route list whose first entry is unknown.',
 }
 
+# additions made in the session of the wave-4 seeded changes (DESIGN.md 8.8), appended after ADDENDA
+ADDENDA4 = {
+    'C01': 'Every reported figure is read between any two operations (reads are side-effect free) and the operand arrays of the noise operations are persistent objects that must come back unchanged.',
+    'C03': 'alpha(f) is compared with the configured loss coefficient (scalar or per-frequency table listed in either order).',
+    'C05': 'Quick tier: Raman settings within 3 deviations (thorough: full product), lumped-loss lists given out of position order.',
+    'C06': 'Every configuration is also judged on the network obtained by saving, reloading and redesigning the design.',
+    'C07': 'Quick tier includes all typings of 4 touching channels; outermost channels sit on the band edge, across it by 12.5 GHz / 1 GHz / 1 MHz, or 1 MHz inside.',
+    'C08': 'Includes lumped-loss lists out of position order on split fibres, a short fibre with an operator pad below the padding, a Raman fibre spliced to a plain fibre, and a library object that already served another design.',
+    'C09': 'Includes a library object that already served the design of another line.',
+    'C10': 'Includes a model 0.2 dB short of another with 0.1 dB steps of required gain across both limits, ROADM degrees without booster under booster restrictions, and a library object used before.',
+    'C11': 'Includes two-request batches between the same transceivers through requests_aggregation (hop-type twins, the same nodes in another order) and complete element lists of routes (>= 11 route objects) as STRICT lists.',
+    'C12': 'Includes two groups whose request ids read alike when concatenated.',
+    'C14': 'Includes a world declared with a 50 GHz guard band.',
+    'C16': 'Includes a 4-site mesh with requests between the same transceivers that differ only in their include lists (same nodes in both orders, LOOSE/STRICT).',
+    'C17': 'Includes operator ROADM settings (node policy of each kind, per-degree targets of each kind, restrictions), a Raman fibre spliced to a plain fibre and a short padded fibre with an operator pad.',
+    'C18': 'Includes the same optional structures on two elements of one document.',
+    'C19': 'Quick tier: every ordered triple of 20 outcome kinds (thorough: quadruples) on a 5-site network; menu includes NO_PATH (unreachable site), a disjoint pair with a detour and output-power twins.',
+    'C20': 'Quick tier: every combination of <= 3 workbook mutators (thorough: 4), every 1-3 row service sheet.',
+}
+
 
 def main():
     checks = []
@@ -315,6 +335,8 @@ def main():
         tech, text, note, ref = CHECKS[pid]
         if pid in ADDENDA:
             text = text + ' ' + ADDENDA[pid]
+        if pid in ADDENDA4:
+            text = text + ' ' + ADDENDA4[pid]
         checks.append({
             'property_id': pid,
             'quick_cmd': f'./check {pid} --tier quick',
